@@ -1,0 +1,45 @@
+/*
+ * Copyright (C) 2024 Nuts community
+ *
+ * This program is free software: you can redistribute it and/or modify
+ * it under the terms of the GNU General Public License as published by
+ * the Free Software Foundation, either version 3 of the License, or
+ * (at your option) any later version.
+ *
+ * This program is distributed in the hope that it will be useful,
+ * but WITHOUT ANY WARRANTY; without even the implied warranty of
+ * MERCHANTABILITY or FITNESS FOR A PARTICULAR PURPOSE.  See the
+ * GNU General Public License for more details.
+ *
+ * You should have received a copy of the GNU General Public License
+ * along with this program.  If not, see <https://www.gnu.org/licenses/>.
+ *
+ */
+
+package crypto
+
+import (
+	"crypto"
+	"crypto/ed25519"
+	"encoding/base64"
+	"testing"
+
+	"github.com/stretchr/testify/assert"
+)
+
+// Keys resolved for remote parties (did:jwk, did:web, did:key) can be Ed25519 keys of any length:
+// verification must fail with an error, crypto/ed25519 panics on them.
+func TestParseJWT_Ed25519KeyOfWrongLength(t *testing.T) {
+	b64 := base64.RawURLEncoding
+	token := b64.EncodeToString([]byte(`{"alg":"EdDSA","typ":"JWT","kid":"k"}`)) + "." + b64.EncodeToString([]byte(`{"iss":"x"}`)) + "." + b64.EncodeToString(make([]byte, 64))
+	for _, length := range []int{0, 1, 31, 33, 34, 64} {
+		key := ed25519.PublicKey(make([]byte, length))
+		keyFunc := func(string) (crypto.PublicKey, error) { return key, nil }
+		assert.NotPanics(t, func() {
+			_, err := ParseJWT(token, keyFunc)
+			assert.Error(t, err)
+			_, err = ParseJWS([]byte(token), keyFunc)
+			assert.Error(t, err)
+		}, "key length %d", length)
+	}
+}
